@@ -173,6 +173,10 @@ let run (toks : string list) : string =
                  if send (fin true false true name (if genuine then Hap.SGenuine else Hap.SInvalid)) then success := true
              | "badsig" | "reordered" | "stale" -> if send (Hap.PVStart true) then ignore (send (fin true false true name Hap.SInvalid))
              | "unknown" -> if send (Hap.PVStart true) then ignore (send (fin true false true (ascii ("nobody-" ^ ctrl)) Hap.SInvalid))
+             | "unknowntail" ->
+               (* the paired name with its last byte changed: a name nobody paired under (the scenarios keep names distinct) *)
+               let tail = (match L.rev name with x :: r -> L.rev (n_of_int ((int_of_n x) lxor 1) :: r) | [] -> []) in
+               if send (Hap.PVStart true) then ignore (send (fin true false true tail Hap.SInvalid))
              | "reflect" | "accname" -> if send (Hap.PVStart true) then ignore (send (fin true false true acc_name Hap.SInvalid))
              | "zerokey" | "randkey" | "flip" -> if send (Hap.PVStart true) then ignore (send (fin false false true name Hap.SInvalid))
              | "inner-garbage" -> if send (Hap.PVStart true) then ignore (send (fin true false false name Hap.SInvalid))
